@@ -17,6 +17,7 @@ Agreement on the log itself is hashicorp/raft's: the model has ONE log and membe
 * `removed_peer_cleans`, `restart_keeps_data`, `left_peer_cleans`, `failed_leave_keeps_data`   watchPeers / Shutdown decisions
 * `rehomed_first`                               PeerRemove logs its re-pins before RmPeer
 * `gen_*`                                       the guard / ordering facts re-checked on the go/ast skeletons of today's source
+* `clean_discards`, `discard_after_every_removal`, `runDisk_backups_bounded`   CleanupRaft / makeBackup
 * `allowed_holds` (= `C17_full_holds`)          every script outcome the model allows meets every clause of the property
 -/
 namespace CV.C17
@@ -259,6 +260,48 @@ theorem failed_leave_keeps_data (f : CFlags) (peersOk : Bool) (h3 : f.removed = 
   unfold shutdownActs
   split_ifs <;> simp_all
 
+/-! ## the removed peer's data folder (CleanupRaft / makeBackup) -/
+
+/-- whatever the folder held, however many rotated copies exist and however `data_folder` was written, `Clean`
+    empties it; the copies never exceed backups_rotate (or what was there before) -/
+theorem clean_discards (keep : Nat) (slash : Bool) (d : Disk) :
+    (cleanupRaft keep slash d).data = false ∧ (cleanupRaft keep slash d).backups ≤ max d.backups keep := by
+  cases hs : d.snap with
+  | false =>
+    have : cleanupRaft keep slash d = { d with data := false } := by simp [cleanupRaft, hs]
+    rw [this]; exact ⟨rfl, by simp only; omega⟩
+  | true =>
+    have : cleanupRaft keep slash d = makeBackup keep d := by simp [cleanupRaft, hs]
+    rw [this]
+    refine ⟨rfl, ?_⟩
+    unfold makeBackup
+    simp only
+    split_ifs <;> omega
+
+theorem runDisk_backups_bounded (keep : Nat) (slash : Bool) (ops : List DiskOp) (d : Disk) :
+    (runDisk keep slash d ops).backups ≤ max d.backups keep := by
+  induction ops generalizing d with
+  | nil => simp only [runDisk, List.foldl_nil]; omega
+  | cons op rest ih =>
+    have h := ih (diskStep keep slash d op)
+    have hb : (diskStep keep slash d op).backups ≤ max d.backups keep := by
+      cases op with
+      | write sn => simp only [diskStep]; omega
+      | clean => exact (clean_discards keep slash d).2
+    simp only [runDisk, List.foldl_cons] at h ⊢
+    omega
+
+/-- in ANY history of re-adding and re-removing the same peer on the same data folder, after every removal the
+    folder is empty — the (backups_rotate+1)-th removal included, with or without a trailing slash in `data_folder` -/
+theorem discard_after_every_removal (keep : Nat) (slash : Bool) (d : Disk) (before : List DiskOp) :
+    (runDisk keep slash d (before ++ [.clean])).data = false := by
+  simp only [runDisk, List.foldl_append, List.foldl_cons, List.foldl_nil, diskStep]
+  exact (clean_discards keep slash _).1
+
+example : runDisk 1 false ⟨false, false, 0⟩ [.write true, .clean, .write true, .clean, .write true, .clean] = ⟨false, false, 1⟩ := by
+  decide
+example : runDisk 2 true ⟨false, false, 0⟩ [.write true, .clean] = ⟨false, false, 1⟩ := by decide
+
 /-! ## re-pins come first -/
 
 theorem rehomed_first (repin : Bool) (pins : PinMap) (p : Nat) (realloc : Pin → Option Pin) :
@@ -355,10 +398,10 @@ theorem gen_shutdown_order :
 def C17_full : Prop := ∀ k : Case, allowed k = true → holds k = true
 
 /-- Every script outcome and observation the model admits meets every clause of the property written from its text
-    (scripts of any length, all op kinds, both suites). -/
+    (scripts of any length, all op kinds, both suites, any backups_rotate, `data_folder` with or without a trailing slash). -/
 theorem allowed_holds (k : Case) (ha : allowed k = true) : holds k = true := by
   unfold allowed at ha
-  cases hr : replay (initState k.tier k.repin k.init) k.ops with
+  cases hr : replay ⟨k.keep, k.slash⟩ (initState k.tier k.repin k.init) k.ops with
   | none => rw [hr] at ha; cases ha
   | some m =>
     rw [hr] at ha
@@ -371,10 +414,22 @@ theorem allowed_holds (k : Case) (ha : allowed k = true) : holds k = true := by
 
 theorem C17_full_holds : C17_full := allowed_holds
 
+/-- regression for the repaired finding K35/F36 (`data_folder` with a trailing slash): a peer joins, snapshots, is
+    removed, cleans. `gone`/`copies` = what its data folder looks like after `Clean`. -/
+def slashCase (gone : Bool) (copies : Nat) : Case :=
+  { tier := .cons, repin := true, retries := 1, init := [0], keep := 2, slash := true,
+    ops := [.start 1, .add 0 1 .ok, .pin 0 (pinCid 1) .ok, .rm 0 1 .ok, .clean 1 gone copies],
+    obs := { members := [{ id := 0, peers := [0], pins := [(pinCid 1).stored], nonvoters := [] }], gone := [] } }
+
+/-- the old behaviour (folder left in place, no copy made) is neither admitted by the model nor by the property;
+    the repaired behaviour (folder rotated away into one copy) is admitted by both -/
+example : allowed (slashCase false 0) = false ∧ holds (slashCase false 0) = false ∧
+    allowed (slashCase true 1) = true ∧ holds (slashCase true 1) = true := by decide
+
 /-- regression for the repaired finding K34: one peer, one pin, leave on shutdown (fails: the last peer cannot be
     removed), restart. `pins` = what the peer reports after the restart. -/
 def leaveLastCase (pins : PinMap) : Case :=
-  { tier := .cluster, repin := true, retries := 1, init := [0],
+  { tier := .cluster, repin := true, retries := 1, init := [0], keep := 2, slash := false,
     ops := [.pin 0 (pinCid 1) .ok, .leave 0 .err, .restart 0],
     obs := { members := [{ id := 0, peers := [0], pins := pins, nonvoters := [] }], gone := [] } }
 
@@ -383,8 +438,18 @@ def leaveLastCase (pins : PinMap) : Case :=
 example : allowed (leaveLastCase []) = false ∧ holds (leaveLastCase []) = false ∧
     allowed (leaveLastCase [(pinCid 1).stored]) = true ∧ holds (leaveLastCase [(pinCid 1).stored]) = true := by decide
 
+/-- regression for the seeded change "the oldest backup is not removed": the third removal of the same peer with
+    backups_rotate = 1 that leaves its folder in place is neither admitted by the model nor by the property -/
+def churnCase (gone : Bool) : Case :=
+  { tier := .cons, repin := true, retries := 1, init := [0], keep := 1, slash := false,
+    ops := [.start 1, .add 0 1 .ok, .pin 0 (pinCid 1) .ok, .rm 0 1 .ok, .clean 1 true 1,
+            .start 1, .add 0 1 .ok, .pin 0 (pinCid 1) .ok, .rm 0 1 .ok, .clean 1 gone 1],
+    obs := { members := [{ id := 0, peers := [0], pins := [(pinCid 1).stored], nonvoters := [] }], gone := [] } }
+example : allowed (churnCase true) = true ∧ holds (churnCase true) = true ∧
+    allowed (churnCase false) = false ∧ holds (churnCase false) = false := by decide
+
 def removeLeaderCase : Case :=
-  { tier := .cons, repin := true, retries := 1, init := [0],
+  { tier := .cons, repin := true, retries := 1, init := [0], keep := 2, slash := false,
     ops := [.pin 0 (pinCid 1) .ok, .start 1, .add 0 1 .ok, (.ready 1 true true true [(pinCid 1).stored]), .rm 1 0 .ok],
     obs := { members := [{ id := 1, peers := [1], pins := [(pinCid 1).stored], nonvoters := [] }], gone := [] } }
 example : allowed removeLeaderCase = true ∧ holds removeLeaderCase = true := by decide
